@@ -52,7 +52,7 @@ func (w *world) runHist() {
 
 	steps := 250
 	if w.sp.thorough() {
-		steps = 1000
+		steps = 1200
 	}
 	for s := 0; s < steps; s++ {
 		k := w.rng.Intn(len(h.keys))
